@@ -651,7 +651,7 @@ class SplineObject(object):
         :return: self
         """
         if self.pardim == 1:
-            return
+            return self
 
         dir1 = check_direction(dir1, self.pardim)
         dir2 = check_direction(dir2, self.pardim)
